@@ -336,6 +336,8 @@ def make_semantics(spec, rule_names):
                 return ast
             if k == 'tag':
                 return ('$tag', rname, ast)
+            if k == 'wrap':
+                return [ast]
             if k == 'failif':
                 if ast == kindspec[1] and isinstance(ast, str):
                     raise FailedSemantics('no')
@@ -364,6 +366,8 @@ def make_semantics(spec, rule_names):
             k = default if isinstance(default, str) else default[0]
             if k == 'identity':
                 return ast
+            if k == 'wrap':
+                return [ast]
             if k == 'failif':
                 if ast == default[1] and isinstance(ast, str):
                     raise FailedSemantics('no')
